@@ -648,10 +648,15 @@ class Partition:
         # Chec inputs and define rectangles
         rectangles = []
         for bbox in bboxes:
-            fmin = bbox.get("fmin", float(ds.freq.min())) or float(ds.freq.min())
-            fmax = bbox.get("fmax", float(ds.freq.max())) or float(ds.freq.max())
-            dmin = bbox.get("dmin", float(ds.dir.min())) or float(ds.dir.min())
-            dmax = bbox.get("dmax", float(ds.dir.max())) or float(ds.dir.max())
+            # A missing or None bound is open; zero is a legitimate bound (e.g. dmax=0)
+            fmin = bbox.get("fmin")
+            fmin = float(ds.freq.min()) if fmin is None else fmin
+            fmax = bbox.get("fmax")
+            fmax = float(ds.freq.max()) if fmax is None else fmax
+            dmin = bbox.get("dmin")
+            dmin = float(ds.dir.min()) if dmin is None else dmin
+            dmax = bbox.get("dmax")
+            dmax = float(ds.dir.max()) if dmax is None else dmax
 
             if fmin >= fmax:
                 raise ValueError(f"fmin {fmin} Hz >= fmax {fmax} Hz")
